@@ -306,40 +306,38 @@ theorem uexecute_remove_arr {d : Doc} {tw : Ticket → Bool} {src : Source} {p x
 /-! ### the history machine on a single `Add` entry -/
 
 theorem undo_add_entry {h : Hist} {p pv ts0 : Ticket} {cv : UVal} {rest : List (List UOp)} {d' : Doc} {q : UOp}
-    (hu : h.undo = [.add p pv cv ts0] :: rest) (hsub : cv.sub = [])
-    (he : uexecute h.doc h.tw .undoRedo (.add p pv (cv.reid h.next) h.next) = .ok (d', some q)) :
+    (hu : h.undo = [.add p pv cv ts0] :: rest)
+    (he : uexecute h.doc noTw .undoRedo (.add p pv (cv.reid h.next) h.next) = .ok (d', some q)) :
     undo h = { h with undo := reconcileStack cv.id h.next rest,
                       redo := push (reconcileStack cv.id h.next h.redo) [q],
                       doc := d', lamport := h.lamport + 1 } := by
   unfold Hist.next at he ⊢
-  have htwin : twinIds (UOp.add p pv (cv.reid ⟨h.lamport + 1, 1, h.actor⟩) ⟨h.lamport + 1, 1, h.actor⟩) = [] := by
-    simp [twinIds, UVal.reid, hsub]
-  simp only [undo, undoRedo, hu, if_true, List.isEmpty_cons, Bool.false_eq_true, if_false, reticket, Hist.reconcile,
-    runOps, he, htwin, addTwins_nil, List.nil_append, Option.toList_some, List.reverse_cons, List.reverse_nil]
+  simp only [undo, undoRedo_eq, hu, if_true, List.isEmpty_cons, Bool.false_eq_true, if_false, reticket_single,
+    Hist.reconcile_eq, runOps_cons, runOps_nil, he, List.nil_append, Option.toList_some, List.reverse_cons,
+    List.reverse_nil]
 
 theorem redo_add_entry {h : Hist} {p pv ts0 : Ticket} {cv : UVal} {rest : List (List UOp)} {d' : Doc} {q : UOp}
-    (hu : h.redo = [.add p pv cv ts0] :: rest) (hsub : cv.sub = [])
-    (he : uexecute h.doc h.tw .undoRedo (.add p pv (cv.reid h.next) h.next) = .ok (d', some q)) :
+    (hu : h.redo = [.add p pv cv ts0] :: rest)
+    (he : uexecute h.doc noTw .undoRedo (.add p pv (cv.reid h.next) h.next) = .ok (d', some q)) :
     redo h = { h with redo := reconcileStack cv.id h.next rest,
                       undo := push (reconcileStack cv.id h.next h.undo) [q],
                       doc := d', lamport := h.lamport + 1 } := by
   unfold Hist.next at he ⊢
-  have htwin : twinIds (UOp.add p pv (cv.reid ⟨h.lamport + 1, 1, h.actor⟩) ⟨h.lamport + 1, 1, h.actor⟩) = [] := by
-    simp [twinIds, UVal.reid, hsub]
-  simp only [redo, undoRedo, hu, Bool.false_eq_true, if_false, List.isEmpty_cons, reticket, Hist.reconcile,
-    runOps, he, htwin, addTwins_nil, List.nil_append, Option.toList_some, List.reverse_cons, List.reverse_nil]
+  simp only [redo, undoRedo_eq, hu, Bool.false_eq_true, if_false, List.isEmpty_cons, reticket_single,
+    Hist.reconcile_eq, runOps_cons, runOps_nil, he, List.nil_append, Option.toList_some, List.reverse_cons,
+    List.reverse_nil]
 
 /-! ### delete / undo / redo -/
 
 theorem redo_doc_of_push {g : Hist} {r q : UOp} {s : List (List UOp)} {d' : Doc}
     (hr : g.redo = push s [r]) (hp : r.plain = true)
-    (he : uexecute g.doc g.tw .undoRedo (r.withTs g.next) = .ok (d', some q)) : (redo g).doc = d' := by
+    (he : uexecute g.doc noTw .undoRedo (r.withTs g.next) = .ok (d', some q)) : (redo g).doc = d' := by
   rw [push_eq] at hr
   rw [redo_one hr hp he]
 
 theorem undo_doc_of_push {g : Hist} {r q : UOp} {s : List (List UOp)} {d' : Doc}
     (hr : g.undo = push s [r]) (hp : r.plain = true)
-    (he : uexecute g.doc g.tw .undoRedo (r.withTs g.next) = .ok (d', some q)) : (undo g).doc = d' := by
+    (he : uexecute g.doc noTw .undoRedo (r.withTs g.next) = .ok (d', some q)) : (undo g).doc = d' := by
   rw [push_eq] at hr
   rw [undo_one hr hp he]
 
@@ -387,7 +385,7 @@ theorem ArrAt.parent {H : Home} {d : Doc} {L : Int} {p u : Ticket} {pe ue : Elem
 
 theorem redo_undo_do_array_delete_lemma {h : Hist} {p u : Ticket} {pe ue : Elem} {nodes : List PosNode}
     {moved : Ticket → Option Ticket} (fr : Fresh h) (a : ArrDel h p u pe ue nodes moved)
-    (horph : orphaned h.doc h.tw orphanFuel p = false) (fuel : Nat) :
+    (horph : orphaned h.doc noTw orphanFuel p = false) (fuel : Nat) :
     marshal (redo (undo (doChange h [.remove p u h.next]))).doc fuel rootId =
       marshal (doChange h [.remove p u h.next]).doc fuel rootId := by
   obtain ⟨H, w⟩ := fr.wf
@@ -397,7 +395,7 @@ theorem redo_undo_do_array_delete_lemma {h : Hist} {p u : Ticket} {pe ue : Elem}
   -- the forward removal
   have hafter1 : h.next.after u = true :=
     after_of_lamport (by have := bd.ent _ _ a.hu; simp only [Hist.next]; omega)
-  obtain ⟨pv1, cv1, hfp1, hcv1, he1⟩ := uexecute_remove_arr (tw := h.tw) (src := .loc) (ts := h.next)
+  obtain ⟨pv1, cv1, hfp1, hcv1, he1⟩ := uexecute_remove_arr (tw := noTw) (src := .loc) (ts := h.next)
     a.hd a.hb a.hu hupar a.hheld rfl (by intro hx; cases hx) hafter1
   rw [capture_leaf a.hu a.hul, a.hur] at hcv1
   have hcv1' : cv1 = leafCopy u ue := (Option.some.inj hcv1).symm
@@ -406,26 +404,23 @@ theorem redo_undo_do_array_delete_lemma {h : Hist} {p u : Ticket} {pe ue : Elem}
   -- the undo re-inserts under `t'`
   generalize ht' : (⟨h.lamport + 1 + 1, 1, h.actor⟩ : Ticket) = t'
   have ht'l : t'.lamport = h.lamport + 2 := by rw [← ht']; simp only []; omega
-  obtain ⟨pv, nodes2, hfp, he2, hh2, hvis⟩ := reinsert_core w bd aa h.tw (t' := t') (by omega)
+  obtain ⟨pv, nodes2, hfp, he2, hh2, hvis⟩ := reinsert_core w bd aa noTw (t' := t') (by omega)
   rw [hfp1] at hfp
   have hpv : pv1 = pv := Option.some.inj hfp
   subst hpv
-  rw [undo_add_entry (cv := leafCopy u ue) (push_eq _ _) rfl (by rw [← ht'] at he2; exact he2)]
+  rw [undo_add_entry (cv := leafCopy u ue) (push_eq _ _) (by rw [← ht'] at he2; exact he2)]
   simp only [Hist.next, ht']
   -- the redo removes `t'` again
   generalize hd2 : reins h.doc p u pe ue nodes2 moved t' = d2 at he2 hvis
   have htp : t' ≠ p := fun hx => by have := bd.ent _ _ (hx ▸ a.hd); omega
   have hd2p : d2 p = some { pe with body := .arr nodes2 moved } := by rw [← hd2]; exact reins_p _ _ _ _ _ _ _ _
   have hd2t : d2 t' = some ⟨some p, false, ue.body⟩ := by rw [← hd2]; exact reins_new _ _ _ _ _ _ htp
-  have htw' : h.tw t' = false := by
-    cases hx : h.tw t' with
-    | false => rfl
-    | true => have := fr.tw _ hx; omega
-  have horph2 : orphaned d2 h.tw orphanFuel t' = false := by
+  have htw' : noTw t' = false := rfl
+  have horph2 : orphaned d2 noTw orphanFuel t' = false := by
     rw [← hd2]; exact orphaned_reins w bd aa (by omega) htw' nodes2 horph
   generalize ht'' : (⟨h.lamport + 1 + 1 + 1, 1, h.actor⟩ : Ticket) = t''
   have hafter2 : t''.after t' = true := after_of_lamport (by rw [← ht'']; simp only []; omega)
-  obtain ⟨pv3, cv3, _, _, he3⟩ := uexecute_remove_arr (tw := h.tw) (src := .undoRedo) (ts := t'')
+  obtain ⟨pv3, cv3, _, _, he3⟩ := uexecute_remove_arr (tw := noTw) (src := .undoRedo) (ts := t'')
     hd2p rfl hd2t rfl hh2 rfl (fun _ => horph2) hafter2
   rw [redo_doc_of_push (r := .remove p t' t') (s := reconcileStack (leafCopy u ue).id t' []) rfl (by rfl)
     (by simp only [Hist.next, UOp.withTs]; rw [ht'']; exact he3)]
@@ -621,11 +616,11 @@ end insResInv
 /-! ### insert / undo / redo -/
 
 theorem redo_doc_of_push_add {g : Hist} {p pv ts0 : Ticket} {cv : UVal} {q : UOp} {s : List (List UOp)} {d' : Doc}
-    (hr : g.redo = push s [.add p pv cv ts0]) (hsub : cv.sub = [])
-    (he : uexecute g.doc g.tw .undoRedo (.add p pv (cv.reid g.next) g.next) = .ok (d', some q)) :
+    (hr : g.redo = push s [.add p pv cv ts0])
+    (he : uexecute g.doc noTw .undoRedo (.add p pv (cv.reid g.next) g.next) = .ok (d', some q)) :
     (redo g).doc = d' := by
   rw [push_eq] at hr
-  rw [redo_add_entry hr hsub he]
+  rw [redo_add_entry hr he]
 
 /-- hypotheses on the array `p` for the insert / undo / redo round trip: the array is not orphaned (the
     undo is a `Remove`, subject to the skip rule), position identities are pairwise distinct, not the
@@ -634,7 +629,7 @@ structure ArrIns (h : Hist) (p : Ticket) (pe : Elem) (nodes : List PosNode) (mov
     Prop where
   hd : h.doc p = some pe
   hb : pe.body = .arr nodes moved
-  horph : orphaned h.doc h.tw orphanFuel p = false
+  horph : orphaned h.doc noTw orphanFuel p = false
   hpos : nodes.Pairwise (fun a b => a.pos ≠ b.pos)
   hhead : ∀ n ∈ nodes, n.pos ≠ headId
   hposL : ∀ n ∈ nodes, n.pos.lamport ≤ h.lamport
@@ -657,7 +652,7 @@ theorem redo_undo_do_insert_lemma {h : Hist} {p prev : Ticket} {v : Val} {pe : E
   generalize H0.update h.next p "" = H at w hpar
   have hpts : p ≠ h.next := by intro hx; have := a.hd; rw [hx, hfresh] at this; cases this
   have hmem : ∀ n, n ∈ nodes' ↔ n = ⟨h.next, some h.next⟩ ∨ n ∈ nodes := fun n => mem_insertAfter hins
-  have he1 := uexecute_add (v := v) (tw := h.tw) a.hd a.hb hins
+  have he1 := uexecute_add (v := v) (tw := noTw) a.hd a.hb hins
   rw [doChange_add he1]
   have w1 := WF_insRes (nodes' := nodes') (b := v.body) w bd (by omega) a.hd a.hb hv hmem hpar
   have bd1 := Bounded_insRes (nodes' := nodes') (b := v.body) bd (x := h.next) (by omega) a.hd a.hb hv hmem
@@ -703,19 +698,19 @@ theorem redo_undo_do_insert_lemma {h : Hist} {p prev : Ticket} {v : Val} {pe : E
       · simp only []; omega
       · have := a.hposL n hn'; omega
   -- the undo executes `remove p ts`
-  have horph1 : orphaned d1 h.tw orphanFuel h.next = false := by
+  have horph1 : orphaned d1 noTw orphanFuel h.next = false := by
     have hagree : ∀ t e, h.doc t = some e → ∃ e1, d1 t = some e1 ∧ e1.removed = e.removed ∧ e1.parent = e.parent := by
       intro t e hte
       by_cases h1 : t = p
       · subst h1; rw [a.hd] at hte; injection hte with hte; subst hte; exact ⟨_, hd1p, rfl, rfl⟩
       · have h2 : t ≠ h.next := by intro hx; rw [hx, hfresh] at hte; cases hte
         exact ⟨e, by rw [hd1o t h1 h2]; exact hte, rfl, rfl⟩
-    have h63 : orphaned d1 h.tw 63 p = false := by
+    have h63 : orphaned d1 noTw 63 p = false := by
       rw [orphaned_ext w hagree 63 p (by simp [a.hd])]; exact orphaned_mono _ _ 63 p a.horph
     rw [show orphanFuel = 63 + 1 from rfl, orphaned_succ_some hd1t rfl, htw, h63]; rfl
   generalize ht2 : (⟨h.lamport + 1 + 1, 1, h.actor⟩ : Ticket) = t2
   have hafter : t2.after h.next = true := after_of_lamport (by rw [← ht2]; simp only [Hist.next]; omega)
-  obtain ⟨pv, cv, hfp, hcv, he2⟩ := uexecute_remove_arr (tw := h.tw) (src := .undoRedo) (ts := t2)
+  obtain ⟨pv, cv, hfp, hcv, he2⟩ := uexecute_remove_arr (tw := noTw) (src := .undoRedo) (ts := t2)
     hd1p rfl hd1t rfl hholds rfl (fun _ => horph1) hafter
   rw [capture_leaf hd1t hv] at hcv
   have hcv' : cv = leafCopy h.next ⟨some p, false, v.body⟩ := (Option.some.inj hcv).symm
@@ -724,12 +719,12 @@ theorem redo_undo_do_insert_lemma {h : Hist} {p prev : Ticket} {v : Val} {pe : E
     (by simp only [Hist.next, UOp.withTs]; rw [ht2]; exact he2)]
   -- the redo re-inserts under `t3`
   generalize ht3 : (⟨h.lamport + 1 + 1 + 1, 1, h.actor⟩ : Ticket) = t3
-  obtain ⟨pv', nodes3, hfp', he3, _, hvis⟩ := reinsert_core w1 bd1 aa h.tw (t' := t3)
+  obtain ⟨pv', nodes3, hfp', he3, _, hvis⟩ := reinsert_core w1 bd1 aa noTw (t' := t3)
     (by rw [← ht3]; simp only []; omega)
   rw [hfp] at hfp'
   have hpv : pv = pv' := Option.some.inj hfp'
   subst hpv
-  rw [redo_doc_of_push_add (cv := leafCopy h.next ⟨some p, false, v.body⟩) (s := []) rfl rfl
+  rw [redo_doc_of_push_add (cv := leafCopy h.next ⟨some p, false, v.body⟩) (s := []) rfl
     (by simp only [Hist.next]; rw [ht3]; exact he3)]
   -- printing up to the renaming ts ↦ t3
   have hroot : rootId ≠ h.next := by
